@@ -212,13 +212,29 @@ class Verifier:
         return rep
 
     def run_path(self, eng, fi, c, prefix, rep, frm=None):
-        reset_names()
         eng.oracle.start(prefix)
         eng.path_id = rep.paths
         eng.cur_contract = c
         eng.fn_stack = [fi]
         eng.guards = []
         eng.seek = None
+        cache = self.__dict__.setdefault('_pre_cache', {})
+        ck = (c.qual, frm)
+        if ck in cache:
+            # the pre-state of this function / segment was built on an earlier path: restore a private copy of it
+            snap, snames, pos, probes = cache[ck]
+            st = snap.clone()
+            names = {k: memo_clone(v, st._memo) for k, v in snames.items()}
+            eng.st = st
+            eng.probes = dict(probes)
+            eng.frm = frm
+            if frm is not None and frm >= 0:
+                eng.seek = fi.yields()[frm]
+            reset_names(pos)
+            st.locals = dict(names)
+            old = eng.snapshot(names)
+            return self.exec_path(eng, fi, c, names, old, rep, frm)
+        reset_names()
         try:
             names = self.setup(eng, c, fi)
         except PathEnd:
@@ -269,8 +285,14 @@ class Verifier:
                     st.assume(z3.Implies(pnd, z3.And(z3.Select(cnt, e) >= 1, n >= 1)))
                     st.ghost[gname + '.cnt'] = z3.Store(cnt, e, z3.Select(cnt, e) - z3.If(pnd, 1, 0))
                     st.ghost[gname + '.n'] = n - z3.If(pnd, 1, 0)
+        snap = st.clone()
+        cache[ck] = (snap, {k: memo_clone(v, snap._memo) for k, v in names.items()}, names_position(), dict(eng.probes))
         st.locals = dict(names)
         old = eng.snapshot(names)
+        return self.exec_path(eng, fi, c, names, old, rep, frm)
+
+    def exec_path(self, eng, fi, c, names, old, rep, frm):
+        st = eng.st
         outcome = None
         try:
             try:
